@@ -827,6 +827,12 @@ def r07m(ctx, run):
     c11.r11d(ctx, run)
 
 
+def r07o(ctx, run):
+    """an accepted switch whose arm always jumps is built: such an arm makes no jump to the exit block (shared with C11 R11.h)"""
+    import c11
+    c11.r11h(ctx, run)
+
+
 def r07n(ctx, run):
     """weak-type replacement is a second way for an operator to meet a type: `x : f32 = 7 % 2;` is accepted while the operands are weak integers and
     the annotation then pushes f32 into them.  The Binary arm of replace_weak_tys is evaluated from source for every operator and new type
@@ -920,6 +926,7 @@ def rules(ctx):
         Rule("R07.k", "array -> slice is accepted only when the element representation is kept (the slice aliases the array's memory)", 1, r07k),
         Rule("R07.i", "== / != on aggregates: every component type the comparison recurses into has a code-generator arm (checker and generator evaluated one level deep)", 60, r07i),
         Rule("R07.m", "an accepted enum declaration has pairwise distinct discriminants (no diagnostic exists for a clash and the code generator panics on one; shared with C11 R11.d)", 2, r07m),
+        Rule("R07.o", "arms of a value-yielding switch that always jump make no jump to the exit block (Cranelift's verifier rejects it; shared with C11 R11.h)", 4, r07o),
         Rule("R07.n", "weak-type replacement gives the operands of a binary operator a new type only where can_perform allows the operator on it (Binary arm of replace_weak_tys evaluated)", 20, r07n),
         Rule("R07.j", "nested bodies (lambda, comptime) set the enclosing params, scopes and labels aside: a jump to an outer label is reported, not compiled (shared with C05 R05.d)", 4, r07j),
         Rule("R07.g", "get_const's classification per expression kind: Unknown (= stay silent) only where an error was already reported (shared with C15 R15.b)", 60, r07g),
